@@ -1,2 +1,394 @@
+"""Verus engine.
+
+Two modes (DESIGN.md section 1):
+  * in place   -- the whole real crate is loaded by `verus src/lib.rs --crate-type=lib`; target items are
+                  switched on by additive attribute lines (`#[verus_verify]`, `#[verus_spec(...)]`)
+                  injected into a scratch copy; everything else is external by default.
+  * extract    -- a single file regenerated on every run: function items cut *verbatim* out of the
+                  scratch copy by anchor and pasted under a hand-written shim header (see extract.py).
+
+Overlay format (overlay/verus/<unit>.ovl), in-place mode:
+  @@ unit props=C13,C03 mode=inplace
+  @@ file <path>
+  @@ before: <start of anchor line> [@@after: <start of an earlier scope line>]
+  <lines to insert in front of the anchor>            (each gets the //@verif marker)
+  @@ append                                           (block appended to the current file)
+  @@ newfile <path>                                   (new file; removed by the fidelity check)
+  @@ fn <verus function path as printed in func-details>   fn=<display name>
+A clause line may end in `//# <label>`; a failed postcondition/assertion whose span lies on that
+line is reported as a violation of that clause.  `//@VACUITY` marks where `false,` is inserted in
+the vacuity twin.
+"""
+import glob
+import json
+import os
+import re
+import time
+
+from . import common
+from .common import Undecided, log, run
+
+OVERLAY_DIR = os.path.join(common.VERIF, "overlay", "verus")
+DEPS = os.path.join(common.CACHE, "verus-deps")
+TOOLCHAIN = "1.98.1-x86_64-unknown-linux-gnu"
+EXTERN_CRATES = ["anyhow", "crossbeam", "env_logger", "geo", "itertools", "log", "nalgebra", "num_cpus",
+                 "once_cell", "pathfinding", "rand", "rayon", "thiserror", "ultraviolet"]
+
+
+# ------------------------------------------------------------------------------------------ deps
+def ensure_deps():
+    """Dependency rlibs built with Verus's pinned toolchain (cached; keyed by Cargo.lock + Cargo.toml)."""
+    key = common.sha256(open(os.path.join(common.REPO, "Cargo.lock")).read() +
+                        open(os.path.join(common.REPO, "Cargo.toml")).read())
+    stamp = os.path.join(DEPS, ".verif-externs.json")
+    if os.path.exists(stamp):
+        try:
+            d = json.load(open(stamp))
+            if d["key"] == key and all(os.path.exists(p) for p in d["externs"].values()):
+                return d["externs"]
+        except Exception:
+            pass
+    os.makedirs(DEPS, exist_ok=True)
+    with common.Scratch("verus-deps") as sc:
+        cfg = sc.path(".cargo/config.toml")
+        if os.path.exists(cfg):
+            os.remove(cfg)
+        # force the final rustc line to be printed
+        run(["touch", sc.path("src/lib.rs")])
+        rc, out, wall = run(["cargo", "+" + TOOLCHAIN, "build", "--no-default-features", "--offline",
+                             "--target-dir", DEPS, "-v"], cwd=sc.dir, timeout=3000)
+        m = re.search(r"Running `[^`]*--crate-name similari [^`]*`", out)
+        if rc != 0 or not m:
+            raise Undecided("cannot build dependency rlibs for Verus: " + out[-500:])
+        externs = dict(re.findall(r"--extern (\w+)=(\S+\.rlib)", m.group(0)))
+    json.dump({"key": key, "externs": externs}, open(stamp, "w"))
+    return externs
+
+
+def verus_cmd_inplace(externs, extra=()):
+    cmd = ["verus", "src/lib.rs", "--crate-type=lib", "--crate-name", "similari", "--edition=2021",
+           "-A", "warnings", "--no-trait-conflicts", "-L", "dependency=" + os.path.join(DEPS, "debug", "deps")]
+    for k in sorted(externs):
+        cmd += ["--extern", "%s=%s" % (k, externs[k])]
+    cmd += ["--output-json", "--error-format=json", "--time", "--multiple-errors", "20"] + list(extra)
+    return cmd
+
+
+# ------------------------------------------------------------------------------------------ overlay
+class VUnit:
+    def __init__(self, name):
+        self.name = name
+        self.props = []
+        self.mode = "inplace"
+        self.ops = []       # (kind, file, anchor, after, [lines])  kind in before|append|newfile
+        self.fns = []       # (verus path, display)
+        self.tier = "quick"
+
+
+def parse_ovl(name):
+    u = VUnit(name)
+    cur_file = None
+    cur = None
+    for raw in open(os.path.join(OVERLAY_DIR, name + ".ovl")).read().splitlines():
+        if raw.startswith("@@"):
+            rest = raw[2:].strip()
+            if rest.startswith("unit"):
+                for k, v in re.findall(r"(\w+)=(\S+)", rest):
+                    if k == "props":
+                        u.props = v.split(",")
+                    elif k == "mode":
+                        u.mode = v
+                    elif k == "tier":
+                        u.tier = v
+                cur = None
+            elif rest.startswith("file "):
+                cur_file = rest[5:].strip()
+                cur = None
+            elif rest.startswith("before:"):
+                a = rest[7:]
+                after = None
+                if "@@after:" in a:
+                    a, after = a.split("@@after:")
+                    after = after.strip()
+                cur = ["before", cur_file, a.strip(), after, []]
+                u.ops.append(cur)
+            elif rest.startswith("append"):
+                cur = ["append", cur_file, None, None, []]
+                u.ops.append(cur)
+            elif rest.startswith("newfile "):
+                cur_file = rest[8:].strip()
+                cur = ["newfile", cur_file, None, None, []]
+                u.ops.append(cur)
+            elif rest.startswith("fn "):
+                parts = rest[3:].split()
+                disp = parts[0]
+                for p in parts[1:]:
+                    if p.startswith("fn="):
+                        disp = p[3:]
+                u.fns.append((parts[0], disp))
+                cur = None
+            elif rest.startswith("#"):
+                pass
+            else:
+                raise Undecided("overlay %s: unknown directive %r" % (name, raw))
+        elif cur is not None:
+            cur[4].append(raw)
+    return u
+
+
+def all_units():
+    if not os.path.isdir(OVERLAY_DIR):
+        return []
+    return [parse_ovl(f[:-4]) for f in sorted(os.listdir(OVERLAY_DIR)) if f.endswith(".ovl")]
+
+
+def inject_inplace(scratch, units, vacuity=False):
+    touched = {}
+    newfiles = []
+    done = set()
+    for u in units:
+        for kind, rel, anchor, after, lines in u.ops:
+            key = (kind, rel, anchor, after, tuple(lines))
+            if key in done:
+                continue
+            done.add(key)
+            lines = [l for l in lines]
+            if vacuity:
+                lines = [("false, //# VACUITY" if l.strip() == "//@VACUITY" else l) for l in lines]
+            else:
+                lines = [l for l in lines if l.strip() != "//@VACUITY"]
+            if kind == "newfile":
+                scratch.write(rel, "\n".join(lines) + "\n")
+                newfiles.append(rel)
+                continue
+            text = touched.get(rel)
+            if text is None:
+                text = scratch.read(rel)
+            if kind == "before":
+                text = common.insert_before_anchor(text, anchor, lines, "%s:%s" % (u.name, rel), after)
+            else:
+                text = common.append_block(text, u.name, "\n".join(lines))
+            touched[rel] = text
+    for rel, text in touched.items():
+        scratch.write(rel, text)
+    common.fidelity_check(scratch, touched.keys())
+    return list(touched.keys()), newfiles
+
+
+# ------------------------------------------------------------------------------------------ results
+def parse_output(out):
+    """-> (diags, summary json or None)"""
+    diags = []
+    for line in out.splitlines():
+        if line.startswith('{"$message_type"'):
+            try:
+                diags.append(json.loads(line))
+            except Exception:
+                pass
+    summary = None
+    i = out.find('{\n  "func-details"')
+    if i < 0:
+        i = out.find('{\n  "')
+    if i >= 0:
+        depth = 0
+        for j in range(i, len(out)):
+            if out[j] == "{":
+                depth += 1
+            elif out[j] == "}":
+                depth -= 1
+                if depth == 0:
+                    try:
+                        summary = json.loads(out[i:j + 1])
+                    except Exception:
+                        summary = None
+                    break
+    return diags, summary
+
+
+LABEL_RE = re.compile(r"//#\s*(\S+)")
+
+
+def labels_in(text):
+    """line number (1-based) -> label for every `//# label` line of a file."""
+    out = {}
+    for i, l in enumerate(text.splitlines()):
+        m = LABEL_RE.search(l)
+        if m:
+            out[i + 1] = m.group(1)
+    return out
+
+
+def fn_of_line(text, lineno, backwards=False):
+    """Name of the first `fn` declared at or after (in-place attributes) / before (extract: the contract
+    follows the signature) a 1-based line: the function a contract line belongs to."""
+    lines = text.splitlines()
+    rng = range(lineno - 1, -1, -1) if backwards else range(lineno - 1, len(lines))
+    for i in rng:
+        m = re.match(r"\s*(?:pub(?:\([^)]*\))?\s+)?(?:proof\s+|exec\s+|spec\s+|open\s+|closed\s+)*fn\s+(\w+)", lines[i])
+        if m:
+            return m.group(1)
+    return "?"
+
+
+def classify_diags(diags, file_texts):
+    """-> (failed_labels: {label: [messages]}, other_errors: [str])"""
+    failed, other = {}, []
+    label_maps = {f: labels_in(t) for f, t in file_texts.items()}
+    for d in diags:
+        if d.get("level") != "error":
+            continue
+        msg = d.get("message", "")
+        if msg.startswith("aborting due to"):
+            continue
+        hit = None
+        for sp in d.get("spans", []):
+            lm = label_maps.get(sp.get("file_name"))
+            if lm is None:
+                continue
+            for ln in range(sp["line_start"], sp["line_end"] + 1):
+                if ln in lm:
+                    hit = lm[ln]
+                    break
+            if hit:
+                break
+        decisive = any(k in msg for k in ("postcondition not satisfied", "assertion failed",
+                                          "invariant not satisfied at end of loop body"))
+        if hit and decisive:
+            failed.setdefault(hit, []).append(msg)
+        else:
+            where = ""
+            for sp in d.get("spans", []):
+                if sp.get("is_primary"):
+                    where = " @%s:%s" % (sp.get("file_name"), sp.get("line_start"))
+            other.append(msg[:200] + where + ((" [at clause %s]" % hit) if hit else ""))
+    return failed, other
+
+
+def run_verus(cmd, cwd, timeout=900):
+    rc, out, wall = run(cmd, cwd=cwd, timeout=timeout)
+    diags, summary = parse_output(out)
+    return rc, out, wall, diags, summary
+
+
+def smt_time(summary_out):
+    m = re.search(r"total smt-run:\s+(\d+) ms", summary_out)
+    m2 = re.search(r"verification-time:\s+(\d+) ms", summary_out)
+    return (int(m.group(1)) / 1000.0 if m else None), (int(m2.group(1)) / 1000.0 if m2 else None)
+
+
+# ------------------------------------------------------------------------------------------ driver part
 def verus_part(prop, tier, seed, only, tag):
-    return [], [], [], {"cmds": [], "trusted": []}
+    from . import extract
+    obligations, violations, undecided = [], [], []
+    info = {"cmds": [], "trusted": [], "vacuity": None, "extract_report": None}
+    units = [u for u in all_units() if prop in u.props and (tier == "thorough" or u.tier == "quick")]
+    if only:
+        units = [u for u in units if u.name in only]
+    inplace = [u for u in units if u.mode == "inplace"]
+    if inplace:
+        o, v, un, i = _inplace_part(prop, tier, seed, inplace, tag)
+        obligations += o; violations += v; undecided += un
+        info["cmds"] += i["cmds"]; info["trusted"] += i["trusted"]; info["vacuity"] = i.get("vacuity")
+    o, v, un, i = extract.extract_part(prop, tier, seed, None, tag, only=only)
+    obligations += o; violations += v; undecided += un
+    info["cmds"] += i["cmds"]; info["trusted"] += i["trusted"]
+    info["extract_report"] = i.get("extract_report")
+    if i.get("vacuity"):
+        info["vacuity"] = (info["vacuity"] or []) + i["vacuity"]
+    return obligations, violations, undecided, info
+
+
+def _base_units():
+    return [parse_ovl("_base")]
+
+
+def _collect(prop, units, texts, diags, summary, out, engine, fn_display):
+    """Turn one Verus run into obligation records."""
+    obligations, violations, undecided = [], [], []
+    failed, other = classify_diags(diags, texts)
+    smt_s, ver_s = smt_time(out)
+    if summary is None:
+        undecided.append("verus produced no result summary: " + (other[0] if other else out[-300:]))
+        return obligations, violations, undecided
+    vr = summary.get("verification-results", {})
+    details = summary.get("func-details", {})
+    # every declared function must really have been taken by Verus
+    for u in units:
+        for path, disp in u.fns:
+            if path not in details:
+                undecided.append("function %s was not verified by Verus (not in func-details: skipped or renamed)" % path)
+    if vr.get("encountered-vir-error") or (vr.get("encountered-error") and not failed and not other):
+        undecided.append("verus error: " + (other[0] if other else "unknown"))
+    for o in other:
+        undecided.append("verus: " + o)
+    for f, t in texts.items():
+        for ln, lab in sorted(labels_in(t).items()):
+            if lab == "VACUITY":
+                continue
+            lprops = lab.split("/")[0].split(",")
+            if prop not in lprops:
+                continue
+            fn = fn_of_line(t, ln, backwards=(engine == "verus-extract"))
+            clause = t.splitlines()[ln - 1].split("//#")[0].strip().rstrip(",")
+            st = "failed" if lab in failed else ("undecided" if other else "discharged")
+            ob = {"engine": engine, "unit": f, "name": lab, "fn": fn_display.get(fn, fn), "kind": "proof",
+                  "status": st, "backend": "verus 0.2026.09.13/z3", "solver_s": None, "text": clause}
+            obligations.append(ob)
+            if st == "failed":
+                violations.append({"ob": ob, "desc": "; ".join(failed[lab]), "verus_out": _errors_text(diags, lab, t)})
+    if obligations and smt_s is not None:
+        obligations[0]["solver_s"] = smt_s
+    return obligations, violations, undecided
+
+
+def _errors_text(diags, lab, text):
+    outs = []
+    for d in diags:
+        if d.get("level") == "error" and d.get("rendered"):
+            outs.append(re.sub(r"\x1b\[[0-9;]*m", "", d["rendered"]))
+    return "\n".join(outs)[:6000]
+
+
+def _inplace_part(prop, tier, seed, units, tag):
+    from . import driver
+    info = {"cmds": [], "trusted": []}
+    externs = ensure_deps()
+    base = _base_units()
+    fn_display = {}
+    for u in units:
+        for path, disp in u.fns:
+            fn_display[path.split("::")[-1]] = disp
+    with common.Scratch(tag + "-verus") as sc:
+        cfg = sc.path(".cargo/config.toml")
+        touched, newfiles = inject_inplace(sc, base + units)
+        cmd = verus_cmd_inplace(externs)
+        rc, out, wall, diags, summary = run_verus(cmd, sc.dir)
+        info["cmds"].append(" ".join(cmd[:12]) + " ... (14 --extern rlibs) --output-json --error-format=json")
+        texts = {f: sc.read(f) for f in touched}
+        info["trusted"] = common.scan_trusted([(f, "\n".join(l for l in sc.read(f).splitlines()
+                                                              if l.rstrip().endswith(common.MARK) or f in newfiles))
+                                               for f in touched + newfiles])
+        obligations, violations, undecided = _collect(prop, units, texts, diags, summary, out, "verus-inplace", fn_display)
+        for v in violations:
+            driver.verus_replay(prop, v, sc)
+        # vacuity twin: every contracted function must FAIL with `ensures false` added
+        if tier == "thorough" or True:
+            with common.Scratch(tag + "-verus-vac") as sc2:
+                inject_inplace(sc2, base + units, vacuity=True)
+                rc2, out2, wall2, diags2, summary2 = run_verus(cmd, sc2.dir)
+                texts2 = {f: sc2.read(f) for f in touched}
+                failed2, other2 = classify_diags(diags2, texts2)
+                n_marks = sum(1 for t in texts2.values() for l in t.splitlines() if "//# VACUITY" in l)
+                # count distinct VACUITY lines that failed
+                hit_lines = set()
+                for d in diags2:
+                    if d.get("level") == "error":
+                        for sp in d.get("spans", []):
+                            t = texts2.get(sp.get("file_name"))
+                            if t and "//# VACUITY" in t.splitlines()[sp["line_start"] - 1]:
+                                hit_lines.add((sp["file_name"], sp["line_start"]))
+                info["vacuity"] = [{"mode": "inplace", "twins": n_marks, "twins_failed_as_required": len(hit_lines)}]
+                if len(hit_lines) != n_marks:
+                    undecided.append("vacuity twin: only %d of %d `ensures false` twins fail (contradictory preconditions or assumed specs?)"
+                                     % (len(hit_lines), n_marks))
+    return obligations, violations, undecided, info
